@@ -208,7 +208,8 @@ class List(list, base.Symbolic, pg_typing.CustomTyping):
     # NOTE(daiyip): We set onchange callback at the end of init to avoid
     # triggering during initialization.
     self._onchange_callback = onchange_callback
-    self.seal(sealed)
+    if sealed:
+      self.seal(sealed)
 
   @property
   def max_size(self) -> Optional[int]:
@@ -376,8 +377,6 @@ class List(list, base.Symbolic, pg_typing.CustomTyping):
 
   def seal(self, sealed: bool = True) -> 'List':
     """Seal or unseal current object from further modification."""
-    if self.is_sealed == sealed:
-      return self
     for elem in self.sym_values():
       if isinstance(elem, base.Symbolic):
         elem.seal(sealed)
